@@ -10,7 +10,7 @@ const_returns addDynamicType_false_iff addDynamicType_false_noop addDynamicTypeI
 user_family_converts""".split()] + ["SCP.C18Api." + t for t in """addRuleText_unknown_language addRuleText_known_language
 addRuleText_false_noop addRuleText_false_iff addRuleText_other_languages addDynamicTypeItemText_unknown_family addDynamicTypeItemText_known_family
 addDynamicTypeItemText_false_noop""".split()] + ["SCP.C18Date." + t for t in """setDateRule_rules setDateRule_api setDateRule_named
-setDateRule_add_comm setDateRule_idem setDateRule_frame""".split()]
+setDateRule_add_comm setDateRule_idem setDateRule_frame deleteRule_keeps_internal addRule_keeps_internal""".split()]
 RULE = ("histories of 5-60 calls: add_rule (5 canned behaviours: constant, decline, echo a field, sum of the number fields, coin; 1-2 patterns "
         "from a pool incl. overlapping ones; languages en, tr and an unknown one; the same name twice; the same patterns under two names), "
         "delete_rule (existing / deleted / unknown names, unknown language), add_dynamic_type (new / duplicate), add_dynamic_type_item (chains "
